@@ -398,7 +398,12 @@ def _check_ifaces(case):
            'class Sub(Impl):\n    def meth(self):\n        pass\n'
            # a class that inherits a documented definition from an ordinary base class: that one comes first (it is on the MRO)
            'class Documented:\n    def meth(self):\n        "doc from Documented"\n'
-           '@implementer(IBoth)\nclass Impl2(Documented):\n    def meth(self):\n        pass\n')
+           '@implementer(IBoth)\nclass Impl2(Documented):\n    def meth(self):\n        pass\n'
+           # the same for a variable: the documented class variable of the base class comes before the interface's Attribute
+           'from zope.interface import Attribute\nclass IAttr(Interface):\n    level = Attribute("doc from IAttr")\n'
+           'class DocumentedAttr:\n    level = 1\n    "doc from DocumentedAttr"\n'
+           '@implementer(IAttr)\nclass Impl3(DocumentedAttr):\n    level = 2\n'
+           '@implementer(IAttr)\nclass Impl4:\n    level = 3\n')
     system = fixtures.build_system([('zi', src, False)])
     want = next((n for n in names if decl[n]), None)
     fails = []
@@ -413,6 +418,14 @@ def _check_ifaces(case):
     if doc2 != 'doc from Documented':
         fails.append({'observed': f'zi.Impl2.meth takes its docstring {doc2!r}', 'required': "'doc from Documented': the base class on the linearisation comes before the interfaces",
                       'class': 'interface-before-base'})
+    doc3, _s3 = model.get_docstring(system.allobjects['zi.Impl3.level'])
+    if doc3 != 'doc from DocumentedAttr':
+        fails.append({'observed': f'zi.Impl3.level takes its docstring {doc3!r}', 'required': "'doc from DocumentedAttr': the base class on the linearisation comes before the interfaces",
+                      'class': 'interface-before-base-attribute'})
+    doc4, _s4 = model.get_docstring(system.allobjects['zi.Impl4.level'])
+    if doc4 != 'doc from IAttr':
+        fails.append({'observed': f'zi.Impl4.level takes its docstring {doc4!r}', 'required': "'doc from IAttr': the interface documents what no class on the linearisation does",
+                      'class': 'interface-attribute-docsource'})
     return fails or None
 
 
